@@ -178,7 +178,9 @@ def justified_pop(ctx, db):
 def nonempty(ctx, db):
     rid = ctx.rule('C12.nonempty', 'GUARDED', 'the top of the heap (_scheduled[0]) and pop_item() are reached only under a fact "not empty" from a branch on empty(); pop_item() kills the fact, '
                    'push_back generates it', floor=4)
-    T = Tracer(db, depth=1, inline_filter=inline_only('cocls::scheduler::remove', 'cocls::scheduler::get_expired_lk'), maxvisit=3)
+    _io = inline_only('cocls::scheduler::remove', 'cocls::scheduler::get_expired_lk')
+    T = Tracer(db, depth=3, inline_filter=lambda c, e, callee: _io(c, e, callee) or (is_helper(db, c, callee) and callee['nname'] not in ('cocls::scheduler::pop_item', 'cocls::scheduler::cancel')), maxvisit=3)
+    T.closures_on_stack = True
     seen = set()
     for name in ('cocls::scheduler::schedule', 'cocls::scheduler::remove', 'cocls::scheduler::get_expired_lk', 'cocls::scheduler::get_expired', 'cocls::scheduler::cancel'):
         for f in db.fns(name):
@@ -480,7 +482,7 @@ def sleeper_never_disarmed(ctx, db):
 def destructor_joins(ctx, db):
     rid = ctx.rule('C12.destructor-stops-worker', 'ORDER', '~scheduler: when a background worker was started, the stop is requested and the worker\'s completion future is waited for, in that order, '
                    'before the members (heap, mutex, condition variable) are destroyed', floor=1)
-    T = Tracer(db, depth=0)
+    T = htracer(db)
     for f in db.need('cocls::scheduler::~scheduler')[:1]:
         bad = None; n = 0
         for tr in [t for t in T.traces(f) if live(t)]:
